@@ -1,5 +1,5 @@
 CONSTANTS Lens = {6, 7, 10, 13} MaxN = 3 Styles = {"ones", "edges", "coarse", "all"}
-SPECIFICATION FairSpec
+SPECIFICATION Spec
 INVARIANTS NoLossDupOrder Leftover ClosedAtEnd
-PROPERTIES Termination Refines
+PROPERTIES Refines
 CHECK_DEADLOCK FALSE
